@@ -11,8 +11,8 @@ open Terway.Daemon
 /-- from a fresh start, after any sequence of requests (overlapping or not), GC passes, restarts and
     crashes inside the database write of a request, the invariant holds: pool keys distinct, one
     record per pod, a recorded address that is in the pool is bound to its pod, every binding is recorded,
-    and no two records name one address.  (`Op.Good` excludes only the two failing-ADD behaviours listed
-    at `Kind.Good`.) -/
+    and no two records name one address.  (`Op.Good` excludes only a failing ADD that keeps what it took: the
+    defect repaired in `Manager.Allocate`.) -/
 theorem c05_invariant_all_histories (crd dual : Bool) (cloud : List (String × Nat)) (hc : cloud.Nodup)
     (ops : List Op) (hg : ∀ op ∈ ops, op.Good) : Inv (run (boot crd dual cloud) ops) :=
   (Inv.boot_pres crd dual hc).run_pres hg
@@ -174,14 +174,21 @@ def cloud0 : List (String × Nat) := [("e1", 101), ("e1", 102)]
 example : (run (boot false false cloud0) [.req (.add [e101]) "p1" "c1" (.found false), .restart cloud0]).pool.map (·.owner)
     = [some "p1", none] := by decide
 
-/-- KNOWN FINDING (`failed-readd/releases-acknowledged-address`): a repeat ADD that fails after the pool
-    served it hands back the address of the pod's acknowledged ADD; another pod is then given it, and two
-    records name one address.  This is the behaviour `Kind.Good` excludes. -/
-theorem c05_failed_readd_breaks_exclusivity :
+/-- the defect repaired by "fix: a canceled repeated allocation released the address the pod already held":
+    a repeat ADD that fails after the pool served it leaves the pod's acknowledged address bound, so the next
+    pod is given another one (before the repair the second pod's record named 101 as well) -/
+theorem c05_failed_repeat_keeps_address :
     let s := run (boot false false cloud0)
       [.req (.add [e101]) "p1" "c1" (.found false),
        .req (.addFail [e101p] true) "p1" "c2" (.found false),
-       .req (.add [e101]) "p2" "c3" (.found false)]
-    (dbGet s.db "p1").map (·.ips) = some [101] ∧ (dbGet s.db "p2").map (·.ips) = some [101] := by decide
+       .req (.add [{ eni := "e1", ip := 102, owner := none, valid := true }]) "p2" "c3" (.found false)]
+    (dbGet s.db "p1").map (·.ips) = some [101] ∧ (dbGet s.db "p2").map (·.ips) = some [102] ∧
+    s.pool.map (·.owner) = [some "p1", some "p2"] := by decide
+
+/-- ... and the pool refuses to give the held address to the other pod -/
+example : (run (boot false false cloud0)
+      [.req (.add [e101]) "p1" "c1" (.found false),
+       .req (.addFail [e101p] true) "p1" "c2" (.found false),
+       .req (.add [e101]) "p2" "c3" (.found false)]).db.map (·.1) = ["p1"] := by decide
 
 end Terway.Props.C05
